@@ -170,10 +170,27 @@ class Program:
         self.adts = {}
         self.impls = []
         self.traits = {}
+        self.aliases = {}
         for c in crates:
             p = os.path.join(facts_dir, c + ".json")
             with open(p) as fh:
-                j = json.load(fh)
+                raw = fh.read()
+            if c != crates[0] and self.aliases:
+                # other crates see items of the first crate through its re-exports (`rustic_core::WriteBackend`);
+                # rewrite those to the definition paths used in the first crate's own facts
+                rx = re.compile(r"\b" + re.escape(crates[0]) + r"::(" + "|".join(sorted(map(re.escape, self.aliases), key=len, reverse=True)) + r")\b")
+                raw = rx.sub(lambda m: self.aliases[m.group(1)], raw)
+            j = json.loads(raw)
+            if c == crates[0]:
+                cand = defaultdict(set)
+                for a in j["adts"]:
+                    cand[a["path"].rsplit("::", 1)[-1]].add(a["path"])
+                for t in j["traits"]:
+                    cand[t["path"].rsplit("::", 1)[-1]].add(t["path"])
+                top = {a["path"] for a in j["adts"]} | {t["path"] for t in j["traits"]}
+                for n, ps in cand.items():
+                    if len(ps) == 1 and f"{c}::{n}" not in top and n[:1].isupper():
+                        self.aliases[n] = next(iter(ps))
             for bj in j["bodies"]:
                 b = Body(self, c, bj)
                 if b.path in self.bodies:
